@@ -81,6 +81,14 @@ pub fn guard<T>(budget: Option<usize>, f: impl FnOnce() -> Result<T, Error>) -> 
         }
     }
 }
+/// like `guard`, but the generator budget is enforced at each generator derived instead of at the request, so
+/// that what the callee computes between the request and its first unit of work (loop bounds, allocations) runs
+pub fn guard_lazy<T>(budget: usize, f: impl FnOnce() -> Result<T, Error>) -> Out<T> {
+    verif_hooks::set_gen_budget_lazy(true);
+    let r = guard(Some(budget), f);
+    verif_hooks::set_gen_budget_lazy(false);
+    r
+}
 pub fn guard_plain<T>(budget: Option<usize>, f: impl FnOnce() -> T) -> Out<T> {
     guard(budget, || Ok(f()))
 }
@@ -186,6 +194,16 @@ pub fn update(s: Suite, sig: &[u8], sk: &[u8], old: &[u8], new: &[u8], idx: usiz
     }))
 }
 
+/// update_signature with an absurd declared count: only the first `steps` generators are derived
+pub fn update_declared(s: Suite, sig: &[u8], sk: &[u8], old: &[u8], new: &[u8], idx: usize, n: usize, steps: usize) -> Out<Vec<u8>> {
+    with_suite!(s, CS => guard_lazy(steps, || {
+        let sk = BBSplusSecretKey::from_bytes(sk)?;
+        let arr: &[u8; 80] = sig.try_into().map_err(|_| Error::InvalidSignature)?;
+        let sig = Signature::<BBSplus<CS>>::from_bytes(arr)?;
+        Ok(sig.update_signature(&sk, old, new, idx, n)?.to_bytes().to_vec())
+    }))
+}
+
 pub fn proof_gen(s: Suite, pk: &[u8], sig: &[u8], hdr: &OB, ph: &OB, msgs: &OV, didx: &OI, budget: Option<usize>) -> Out<Vec<u8>> {
     with_suite!(s, CS => guard(budget, || {
         let pk = BBSplusPublicKey::from_bytes(pk)?;
@@ -207,6 +225,35 @@ pub fn proof_verify_json(s: Suite, proof_json: &str, pk: &[u8], hdr: &OB, ph: &O
         let pk = BBSplusPublicKey::from_bytes(pk)?;
         let p: PoKSignature<BBSplus<CS>> = serde_json::from_str(proof_json).map_err(|_| Error::InvalidProofOfKnowledgeSignature)?;
         p.proof_verify(&pk, optv(dmsgs), opti(didx), opt(hdr), opt(ph))
+    }))
+}
+/// serde_json decoding of one of the generic artefact types followed by the first thing a caller does with
+/// the value (encode it / verify it): Ok(true) if the JSON was accepted, Ok(false)/Err if refused
+pub fn json_probe(s: Suite, kind: &str, js: &str, pk: &[u8]) -> Out<bool> {
+    with_suite!(s, CS => guard(None, || {
+        let pk = BBSplusPublicKey::from_bytes(pk)?;
+        match kind {
+            "signature" => {
+                let Ok(x) = serde_json::from_str::<Signature<BBSplus<CS>>>(js) else { return Ok(false) };
+                let _ = x.to_bytes();
+                let _ = x.verify(&pk, None, None);
+            }
+            "blind_signature" => {
+                let Ok(x) = serde_json::from_str::<BlindSignature<BBSplus<CS>>>(js) else { return Ok(false) };
+                let _ = x.to_bytes();
+            }
+            "proof" => {
+                let Ok(x) = serde_json::from_str::<PoKSignature<BBSplus<CS>>>(js) else { return Ok(false) };
+                let _ = x.to_bytes();
+                let _ = x.proof_verify(&pk, None, None, None, None);
+            }
+            "commitment" => {
+                let Ok(x) = serde_json::from_str::<Commitment<BBSplus<CS>>>(js) else { return Ok(false) };
+                let _ = x.to_bytes();
+            }
+            _ => return Ok(false),
+        }
+        Ok(true)
     }))
 }
 pub fn proof_to_json(s: Suite, proof: &[u8]) -> Out<String> {
